@@ -9,6 +9,7 @@ import Stingray.Driver.History
 import Stingray.Driver.RefFormat
 import Stingray.Driver.Json
 import Stingray.Driver.Facade
+import Stingray.Driver.Clause
 /-!
 Line protocol driver: `lake env lean --run Driver.lean < requests > answers`.
 One request per line: `<family> <op> <args…>` separated by single spaces; one answer line each.
@@ -34,6 +35,7 @@ def dispatch (st : DState) (line : String) : DState × String :=
   | "REF" :: rest => (st, Ref.handle rest)
   | "JSN" :: rest => (st, Jsn.handle rest)
   | "FAC" :: rest => (st, Fac.handle rest)
+  | "CLA" :: rest => (st, Cla.handle rest)
   | _ => (st, "bad-op")
 
 partial def loop (h : IO.FS.Stream) (out : IO.FS.Stream) (st : DState) : IO Unit := do
